@@ -109,7 +109,7 @@ class MultitaskMultivariateNormal(MultivariateNormal):
         """
         orig_task_dim = task_dim
         task_dim = task_dim if task_dim >= 0 else (len(batch_mvn.batch_shape) + task_dim)
-        if task_dim < 0 or task_dim > len(batch_mvn.batch_shape):
+        if task_dim < 0 or task_dim >= len(batch_mvn.batch_shape):
             raise ValueError(
                 f"task_dim of {orig_task_dim} is incompatible with MVN batch shape of {batch_mvn.batch_shape}"
             )
